@@ -39,7 +39,12 @@ def episode(draw, index):
                  "program": [["beat", 3, 1000000]], "end": ["forever"], "cleanup": draw(cleanup(flv))}
             payloads.append(p)
             hb.append(p["id"])
-    population = draw(st.sampled_from(["none", "coroutines", "blocked-threads", "adopters"]))
+    population = draw(st.sampled_from(["none", "coroutines", "blocked-threads", "adopters", "stubborn"]))
+    if population == "stubborn":
+        # "whatever the payloads are doing": asyncio payloads that keep awaiting inside their cancellation handler
+        for i in range(draw(st.integers(1, 3))):
+            payloads.append({"id": base + 200 + i, "flavour": "asyncio", "role": "sleeper", "reg": {"how": "pre"}, "program": [["sleep", 600000]],
+                             "end": ["forever"], "cleanup": {}, "stubborn": draw(st.sampled_from([1, 2, 4]))})
     if population == "coroutines":
         for i in range(draw(st.integers(1, 4))):
             flv = draw(st.sampled_from(["asyncio", "trio"]))
